@@ -30,7 +30,7 @@ CLAIMED["C06"] = dict(
     level="exploration",
     text="Dynamic half of the property: depth invariants (never below the frame base, exactly one pending operand at EndExpression, same depth at the same instruction on every visited path, flat reapply loops, initial depths restored at End) are evaluated after every step of (A) every ordered pair of operators (38 binary forms, 8 prefix, 3 suffix) around distinct identifiers, at the top level and inside a called expression, under declining / accepting hosts and five value palettes — swept completely on every invocation — and (B) generated control-flow-heavy programs and sampled operator triples whose every condition and arm is a host-resolved identifier, with the host's truth assignments swept (all 2^k for k<=6). The static all-paths abstract interpretation named in the quantifier is a different technique and is not built; path coverage is what the simulated host can steer.",
     design="DESIGN.md §5 C06",
-    note="Trusted: depth observers (public API; Basic's private chains observed on a clone), scripted host. Six recorded findings (D1, D8, D21, D22, D23, D28) are reproduced by explicit scenarios on every run and matched by shape tags computed from the real parse tree (known_findings.json, DESIGN.md §7.2); the generator keeps those shapes out of the random corpus.",
+    note="Trusted: depth observers (public API; Basic's private chains observed on a clone), scripted host. Seven recorded findings (D1, D8, D21, D22, D23, D28, D30) are reproduced by explicit scenarios on every run and matched by shape tags computed from the real parse tree (known_findings.json, DESIGN.md §7.2); the generator keeps those shapes out of the random corpus.",
     technique=TECH + ": host-steered path sweep with per-step depth invariants",
 )
 CLAIMED["C07"] = dict(
